@@ -389,6 +389,11 @@ func (c *checker) resolveNew() {
 	}
 	sort.Strings(keys)
 	maxReport := 6
+	// reductions are a convenience, not part of the verdict: bounded in wall-clock time
+	minimiseDeadline = time.Now().Add(6 * time.Minute)
+	if c.tier == "thorough" {
+		minimiseDeadline = time.Now().Add(45 * time.Minute)
+	}
 	for n, k := range keys {
 		fv := c.newKeys[k]
 		if n >= maxReport {
@@ -435,7 +440,7 @@ func (c *checker) reduceHistory(rp *Replay, budget int) *Replay {
 	hist := rp.Plans[:len(rp.Plans)-1]
 	last := rp.Plans[len(rp.Plans)-1]
 	try := func(h []*Plan) bool {
-		if budget <= 0 {
+		if budget <= 0 || pastMinimiseDeadline() {
 			return false
 		}
 		budget--
